@@ -206,6 +206,13 @@ def respondHTTP (ms : List Bytes) (md : MD) (code : Nat) (msg : Bytes) : Bytes :
 
 def httpStatus : Nat := 200
 
+/-- Per-message flushing, modelled honestly: gRPCWebStream.send only calls `rw.Write`; GRPCWebBridge never calls
+    `http.Flusher.Flush` (TranscodedHTTPBridge does, after every message). A written frame therefore sits in net/http's
+    buffers (bufio before chunking, then the connection's) until they fill up or ServeHTTP returns. What the client
+    can have seen: while the handler runs, any prefix of what was written — possibly nothing; once it returned, all. -/
+def VisibleOK (finished : Bool) (written visible : Bytes) : Prop :=
+  if finished then visible = written else visible <+: written
+
 /-! ### WebSocket sub-protocol (grpc-websockets) -/
 
 structure WS where
